@@ -3,7 +3,10 @@
    Prop-level reading, for every number of replicas, command table and trace (no bound):
    (1) soundness: a trace accepted by the monitor satisfies, event by event, the Prop-level clause of the property;
    (2) completeness w.r.t. the model: a trace on which the implementation agrees with the model (code 1 absent) passes every
-       conjunct of the monitor that the model speaks about, under the guards stated below. *)
+       conjunct of the monitor that the model speaks about (all but C17's OReady), acknowledgements included, unless it has
+       the shape of a carried finding (tag_of <> 0): no untagged code-2 failure on a trace the model accepts;
+   (3) an acknowledged operation is in the log below what its committer has applied, hence in the committer's pinset unless
+       a later applied operation writes the same cid. *)
 From V Require Import Base.Common Base.CommonLemmas Model.C01_RaftLog Proofs.C01_RaftLog.
 From V Require Import Model.C01_Check.
 From Coq Require Import Permutation Arith.
@@ -69,9 +72,8 @@ Proof. induction a as [|x r IH]; intros b P.
     rewrite F. apply IH. apply remove_first_perm in F. apply Permutation_cons_inv with x. now transitivity b. Qed.
 
 (* ---------- the monitor split by event kind ---------- *)
-(* the conjuncts the model speaks about: everything except acknowledgements (LogPin returning nil: the model has no such
-   event, pass 1 accepts every OAck) and the C17 readiness observation (its lower bound m0 is C17's clause) *)
-Definition core (e : oevent) : bool := match e with OAck _ _ | OReady _ _ _ _ => false | _ => true end.
+(* the conjuncts the model speaks about: everything except the C17 readiness observation (its lower bound m0 is C17's clause) *)
+Definition core (e : oevent) : bool := match e with OReady _ _ _ _ => false | _ => true end.
 Fixpoint spec_run_sel (sel : oevent -> bool) (cmds : list logop) (lg : list N) (sn : list snode) (es : list oevent) : bool :=
   match es with
   | [] => true
@@ -84,11 +86,22 @@ Proof. induction es as [|e r IH]; intros lg sn; [reflexivity|]. cbn [spec_run sp
   destruct (core e), ok, (spec_run_sel core cmds lg' sn' r), (spec_run_sel (fun e0 => negb (core e0)) cmds lg' sn' r); reflexivity. Qed.
 
 (* ---------- guards ---------- *)
-(* what the harness guarantees about a trace, evaluated along the model's run:
+(* what the harness guarantees about the FORM of a trace (no reference to the model):
    * a committed command is a row of the command table;
-   * nothing is applied or restored on a replica between its FSM.Snapshot and the Persist of that snapshot (the guard
-     `ev_atomic` of the theorems: excludes the shape of finding S23);
    * the R3 observation (process killed and started again) is the last event of its trace and names a replica of the rig *)
+Definition wf_step (k : nat) (cmds : list logop) (e : oevent) (rest : list oevent) : bool :=
+  match e with
+  | OCommit c => (nn c <? length cmds)%nat
+  | ORecovered n _ _ => (nn n <? k)%nat && match rest with [] => true | _ => false end
+  | _ => true
+  end.
+Fixpoint wf_run (k : nat) (cmds : list logop) (es : list oevent) : bool :=
+  match es with [] => true | e :: r => wf_step k cmds e r && wf_run k cmds r end.
+Definition trace_wf (k : N) (cmds : list logop) (es : list oevent) : bool := wf_run (nn k) cmds es.
+
+(* the same with the guard `ev_atomic` of the theorems of Props/C01.v, evaluated along the model's run: nothing is applied or
+   restored on a replica between its FSM.Snapshot and the Persist of that snapshot. It implies that the S23 recogniser stays
+   silent (atomic_not_late_l below), so the theorems under `tag_of = 0` cover every trace with atomic snapshots. *)
 Definition guard_step (k : nat) (cmds : list logop) (cl : cluster) (e : oevent) (rest : list oevent) : bool :=
   match e with
   | OCommit c => (nn c <? length cmds)%nat
@@ -96,12 +109,12 @@ Definition guard_step (k : nat) (cmds : list logop) (cl : cluster) (e : oevent) 
   | ORecovered n _ _ => (nn n <? k)%nat && match rest with [] => true | _ => false end
   | _ => true
   end.
-Fixpoint guard_run (k : nat) (cmds : list logop) (cl : cluster) (es : list oevent) : bool :=
+Fixpoint guard_run (k : nat) (cmds : list logop) (lg : list N) (cl : cluster) (es : list oevent) : bool :=
   match es with
   | [] => true
-  | e :: r => guard_step k cmds cl e r && guard_run k cmds (fst (model_step cmds cl e)) r
+  | e :: r => guard_step k cmds cl e r && guard_run k cmds (log_step cmds lg e) (fst (model_step cmds lg cl e)) r
   end.
-Definition trace_guard (k : N) (cmds : list logop) (es : list oevent) : bool := guard_run (nn k) cmds (init (nn k)) es.
+Definition trace_guard (k : N) (cmds : list logop) (es : list oevent) : bool := guard_run (nn k) cmds [] (init (nn k)) es.
 
 (* the premise of the property and the absence of the S19 shape make every command a plain decodable pin / unpin *)
 Definition cmds_ok (cmds : list logop) : Prop := forall op, In op cmds -> in_premise op = true /\ clean_op op = true.
@@ -112,6 +125,10 @@ Proof. intros Hp Hs op Hin. rewrite forallb_forall in Hp. specialize (Hp op Hin)
     assert (existsb (fun op => match pin_of op with Some p => negb (wire_ok p) | None => false end) cmds = true); [|congruence].
     apply existsb_exists. exists op. auto. }
   destruct op as [p|p|p| | |]; cbn in *; try discriminate; now apply negb_false_iff in Hn. Qed.
+
+(* tag_of = 0: neither the S19 shape nor the S23 shape *)
+Lemma tag_of_0 cmds es : tag_of cmds es = 0 -> is_S19 cmds = false /\ late_restore [] [] [] es = false.
+Proof. unfold tag_of. destruct (is_S19 cmds); [discriminate|]. destruct (late_restore [] [] [] es); [discriminate|]. auto. Qed.
 
 (* ---------- tracker calls ---------- *)
 Lemma proj_track p : wf_pin p = true -> proj_call (track_of (store_norm p)) = proj_call (track_of p).
@@ -129,9 +146,45 @@ Lemma expected_calls_commit ops op hist : Forall (fun j => (j < length ops)%nat)
 Proof. intros H. unfold expected_calls. induction hist as [|j r IH]; [reflexivity|]. inversion H as [|? ? Hj Hr]; subst.
   cbn [flat_map]. rewrite (IH Hr), nth_error_app1 by exact Hj. reflexivity. Qed.
 
-(* ---------- the simulation invariant ---------- *)
+(* ---------- the state of a replica without its snapshots ---------- *)
+(* `node_strict` of Proofs/C01_RaftLog.v minus the clauses about the pending and the persisted snapshots: those hold of the
+   snapshots the recogniser does not call late (node_rec below) *)
+Record node_core (lg : list logop) (nd : node) : Prop := mk_node_core {
+  c_dirty : dirty nd = false;
+  c_crashed : crashed nd = false;
+  c_incons : incons nd = false;
+  c_applied : (applied nd <= length lg)%nat;
+  c_st : st nd = replay (firstn (applied nd) lg)
+}.
+Lemma core_node0_any ops : node_core ops node0.
+Proof. constructor; cbn; auto. lia. Qed.
+Lemma core_commit lg nd op : node_core lg nd -> node_core (lg ++ [op]) nd.
+Proof. intros [H1 H2 H3 H4 H5]. constructor; auto.
+  - rewrite app_length. cbn. lia.
+  - now rewrite firstn_app_le. Qed.
+Lemma core_apply lg nd op : node_core lg nd -> nth_error lg (applied nd) = Some op -> good_op op = true ->
+  node_core lg (apply_entry op nd).
+Proof. intros [H1 H2 H3 H4 H5] Hn Hg. apply andb_true_iff in Hg. destruct Hg as [Hc Ha].
+  destruct (apply_entry_clean op nd Hc Ha H1 H2) as [E1 [E2 [E3 [E4 [E5 [E6 [E7 E8]]]]]]].
+  assert (Hlen : (applied nd < length lg)%nat) by (apply nth_error_Some; congruence).
+  constructor; auto.
+  - congruence.
+  - rewrite E2. lia.
+  - rewrite E1, E2, H5. symmetry. now apply replay_step. Qed.
+Lemma core_snap_req lg nd : node_core lg nd -> node_core lg (snap_req nd).
+Proof. intros [H1 H2 H3 H4 H5]. unfold snap_req. rewrite H2. constructor; cbn; auto. Qed.
+Lemma core_persist lg nd : node_core lg nd -> node_core lg (snap_persist nd).
+Proof. intros G. pose proof G as [H1 H2 H3 H4 H5]. unfold snap_persist. destruct (pending nd) as [l|]; auto.
+  constructor; cbn; auto. Qed.
+Lemma core_restore lg nd s : node_core lg nd -> snap_strict lg s -> node_core lg (restore s nd).
+Proof. intros [H1 H2 H3 H4 H5] [S1 S2]. unfold restore. rewrite H2. constructor; cbn; auto.
+  rewrite restore_onto_id; auto. rewrite S2. apply sorted_replay. Qed.
+Lemma core_restart lg nd : node_core lg nd -> node_core lg (restart nd).
+Proof. intros [H1 H2 H3 H4 H5]. unfold restart. constructor; cbn; auto. lia. Qed.
+
+(* ---------- the simulation invariant, part A: model replica / monitor bookkeeping ---------- *)
 Record pair_inv (ops : list logop) (nd : node) (s : snode) : Prop := mk_pair_inv {
-  pi_strict : node_strict ops nd;
+  pi_core : node_core ops nd;
   pi_applied : s_applied s = applied nd;
   pi_pending : s_pending s = pending nd;
   pi_labels : s_labels s = map fst (snaps nd);
@@ -143,12 +196,10 @@ Definition inv (cmds : list logop) (cl : cluster) (lg : list N) (sn : list snode
   log cl = map (cmd_of cmds) lg /\ forallb good_op (log cl) = true /\ forallb in_premise (log cl) = true /\
   Forall2 (pair_inv (log cl)) (nodes cl) sn.
 
-Lemma strict_node0_any ops : node_strict ops node0.
-Proof. constructor; cbn; auto; [lia|intros l H; discriminate]. Qed.
 Lemma pair_inv0 ops : pair_inv ops node0 snode0.
-Proof. constructor; cbn; auto using strict_node0_any. Qed.
+Proof. constructor; cbn; auto using core_node0_any. Qed.
 Lemma pair_inv_commit ops op nd s : pair_inv ops nd s -> pair_inv (ops ++ [op]) nd s.
-Proof. intros [H1 H2 H3 H4 H5 H6 H7]. constructor; auto; try (now apply strict_commit); try (now rewrite expected_calls_commit).
+Proof. intros [H1 H2 H3 H4 H5 H6 H7]. constructor; auto; try (now apply core_commit); try (now rewrite expected_calls_commit).
   eapply Forall_impl; [|exact H6]. intros j Hj. cbv beta in *. rewrite app_length. cbn. lia. Qed.
 
 Lemma Forall2_upd (R : node -> snode -> Prop) f g n : forall l l', Forall2 R l l' ->
@@ -168,7 +219,7 @@ Proof. split; [reflexivity|]. split; [reflexivity|]. split; [reflexivity|]. cbn 
 
 (* the view of a replica in the invariant is the replay of the prefix it was given *)
 Lemma view_strict ops nd s : pair_inv ops nd s -> view nd = Some (replay (firstn (applied nd) ops)).
-Proof. intros [[_ _ Hi _ Hst _ _] _ _ _ Hin _ _]. unfold view. destruct (inited nd) eqn:E; cbn [negb].
+Proof. intros [[_ _ Hi _ Hst] _ _ _ Hin _ _]. unfold view. destruct (inited nd) eqn:E; cbn [negb].
   - now rewrite Hi, Hst.
   - rewrite (Hin eq_refl). reflexivity. Qed.
 
@@ -198,9 +249,92 @@ Lemma getn_upd_fix lg f n l : f node0 = node0 -> getn n (mkcluster lg (upd n f l
 Proof. intros H0. rewrite getn_upd_same. destruct (nth_error l n) as [x|] eqn:E.
   - now rewrite (nth_error_nth l n node0 E).
   - rewrite nth_overflow by (now apply nth_error_None). now rewrite H0. Qed.
+Lemma getn_upd_other lg f n i l : n <> i -> getn i (mkcluster lg (upd n f l)) = nth i l node0.
+Proof. intros H. unfold getn. cbn [nodes]. destruct (nth_error l i) as [x|] eqn:E.
+  - rewrite (nth_error_nth l i node0 E). apply nth_error_nth. rewrite nth_error_upd.
+    destruct (Nat.eqb_spec n i); [contradiction|exact E].
+  - rewrite (nth_overflow l) by (now apply nth_error_None). apply nth_overflow. rewrite upd_length. now apply nth_error_None. Qed.
 
 Lemma Forall2_weaken {A B} (R R' : A -> B -> Prop) : (forall x y, R x y -> R' x y) -> forall l l', Forall2 R l l' -> Forall2 R' l l'.
 Proof. intros H l l' F. induction F; constructor; auto. Qed.
+
+(* ---------- the simulation invariant, part B: the recogniser's bookkeeping and the model's snapshots ---------- *)
+(* replica i of the model against the state (pend, cnt, late) of `late_restore`:
+   * a pending snapshot is known to the recogniser, and while it has seen nothing given to the replica since the FSM.Snapshot,
+     the label is the replica's position;
+   * it has counted the replica's snapshots;
+   * every snapshot it does not call late is the replay of the prefix it is labelled with *)
+Record node_rec (lg : list logop) (pend : list (N * bool)) (cnt late : list (N * N)) (i : nat) (nd : node) : Prop := mk_node_rec {
+  r_pending : forall l, pending nd = Some l -> exists b, aget (N.of_nat i) pend = Some b /\ (b = false -> l = applied nd);
+  r_cnt : cnt_of (N.of_nat i) cnt = N.of_nat (length (snaps nd));
+  r_snaps : forall k s, nth_error (snaps nd) k = Some s -> is_late late (N.of_nat i) (N.of_nat k) = false -> snap_strict lg s
+}.
+Definition rec_inv (lg : list logop) (pend : list (N * bool)) (cnt late : list (N * N)) (l : list node) : Prop :=
+  forall i nd, nth_error l i = Some nd -> node_rec lg pend cnt late i nd.
+
+Lemma aget_touch_other n k pend : k <> n -> aget k (touch n pend) = aget k pend.
+Proof. intros H. unfold touch. destruct (aget n pend); [now apply aget_aput_other|reflexivity]. Qed.
+Lemma aget_touch_same n pend b : aget n pend = Some b -> aget n (touch n pend) = Some true.
+Proof. intros H. unfold touch. rewrite H. apply aget_aput_same. Qed.
+Lemma cnt_of_aput_same n v cnt : cnt_of n (aput n v cnt) = v.
+Proof. unfold cnt_of. now rewrite aget_aput_same. Qed.
+Lemma cnt_of_aput_other n k v cnt : k <> n -> cnt_of k (aput n v cnt) = cnt_of k cnt.
+Proof. intros H. unfold cnt_of. now rewrite aget_aput_other. Qed.
+Lemma is_late_cons x late a b : is_late (x :: late) a b = false -> is_late late a b = false.
+Proof. unfold is_late. cbn [existsb]. intros H. apply orb_false_iff in H. tauto. Qed.
+Lemma is_late_hd late a b : is_late ((a, b) :: late) a b = true.
+Proof. unfold is_late. cbn [existsb fst snd]. now rewrite !N.eqb_refl. Qed.
+Lemma of_nat_neq n i : nn n <> i -> N.of_nat i <> n.
+Proof. intros H E. apply H. subst n. unfold nn. apply Nat2N.id. Qed.
+Lemma of_nat_nn n : N.of_nat (nn n) = n.
+Proof. unfold nn. apply N2Nat.id. Qed.
+
+Lemma rec_init k : rec_inv [] [] [] [] (repeat node0 k).
+Proof. intros i nd Hi. apply nth_error_In, repeat_spec in Hi. subst nd. constructor; cbn.
+  - intros l H. discriminate.
+  - reflexivity.
+  - intros j s H. destruct j; discriminate. Qed.
+
+Lemma snap_strict_commit lg op s : snap_strict lg s -> snap_strict (lg ++ [op]) s.
+Proof. intros [S1 S2]. split; [rewrite app_length; cbn; lia|now rewrite firstn_app_le]. Qed.
+Lemma rec_commit lg op pend cnt late l : rec_inv lg pend cnt late l -> rec_inv (lg ++ [op]) pend cnt late l.
+Proof. intros R i nd Hi. destruct (R i nd Hi) as [R1 R2 R3]. constructor; auto.
+  intros k s Hs Hl. apply snap_strict_commit. eauto. Qed.
+
+(* replica n changes, the recogniser's state changes at key n at most, `late` grows at most *)
+Lemma rec_upd lg pend pend' cnt cnt' late late' n f l :
+  rec_inv lg pend cnt late l ->
+  (forall k, k <> n -> aget k pend' = aget k pend) ->
+  (forall k, k <> n -> cnt_of k cnt' = cnt_of k cnt) ->
+  (forall a b, is_late late' a b = false -> is_late late a b = false) ->
+  (forall x, nth_error l (nn n) = Some x -> node_rec lg pend cnt late (nn n) x -> node_rec lg pend' cnt' late' (nn n) (f x)) ->
+  rec_inv lg pend' cnt' late' (upd (nn n) f l).
+Proof. intros R Hp Hc Hl Hf i nd Hi. rewrite nth_error_upd in Hi. destruct (Nat.eqb_spec (nn n) i) as [E|Hne].
+  - subst i. destruct (nth_error l (nn n)) as [x|] eqn:Ex; [|discriminate]. cbn in Hi. injection Hi as <-. apply Hf; auto.
+  - destruct (R i nd Hi) as [R1 R2 R3]. pose proof (of_nat_neq n i Hne) as Hk. constructor.
+    + intros l0 Hl0. rewrite (Hp _ Hk). now apply R1.
+    + rewrite (Hc _ Hk). exact R2.
+    + intros k s Hs Hlate. apply (R3 k s Hs). now apply Hl. Qed.
+
+(* what the recogniser does not flag is strict *)
+Lemma rec_snap_strict cl pend cnt late src k s : rec_inv (log cl) pend cnt late (nodes cl) ->
+  nth_error (snaps (getn (nn src) cl)) (nn k) = Some s -> is_late late src k = false -> snap_strict (log cl) s.
+Proof. intros R Es Hl. destruct (getn_cases (nn src) cl) as [[y [Hy Ey]]|[_ Ey]]; rewrite Ey in Es.
+  - apply (r_snaps _ _ _ _ _ _ (R _ _ Hy) (nn k) s Es). now rewrite !of_nat_nn.
+  - cbn in Es. destruct (nn k); discriminate. Qed.
+Lemma rec_last_strict cl pend cnt late n s r : rec_inv (log cl) pend cnt late (nodes cl) ->
+  rev (snaps (getn (nn n) cl)) = s :: r ->
+  (let k := cnt_of n cnt in (0 <? k) && is_late late n (k - 1)) = false -> snap_strict (log cl) s.
+Proof. intros R Er Hl. destruct (getn_cases (nn n) cl) as [[y [Hy Ey]]|[_ Ey]]; rewrite Ey in Er; [|discriminate].
+  assert (Es : snaps y = rev r ++ [s]) by (rewrite <- (rev_involutive (snaps y)), Er; reflexivity).
+  destruct (R _ _ Hy) as [_ R2 R3]. rewrite of_nat_nn in R2, R3. cbv zeta in Hl. rewrite R2 in Hl.
+  rewrite Es, app_length in Hl. cbn [length] in Hl.
+  assert (H0 : (0 <? N.of_nat (length (rev r) + 1)) = true) by (apply N.ltb_lt; lia). rewrite H0 in Hl. cbn [andb] in Hl.
+  replace (N.of_nat (length (rev r) + 1) - 1) with (N.of_nat (length (rev r))) in Hl by lia.
+  apply (R3 (length (rev r)) s); auto. rewrite Es, nth_error_app2 by lia. now rewrite Nat.sub_diag. Qed.
+Ltac split_model Em Eok := let E1 := fresh "E" in
+  pose proof (f_equal fst Em) as E1; pose proof (f_equal snd Em) as Eok; cbn [fst snd] in E1, Eok; clear Em; match type of E1 with _ = ?x => subst x end.
+
 
 Section Sim.
 Context (cmds : list logop) (Hok : cmds_ok cmds).
@@ -228,13 +362,13 @@ Lemma perm_cons_snoc {A} (a : A) X Y : Permutation X Y -> Permutation (a :: X) (
 Proof. intros H. apply Permutation_trans with (a :: Y); [now constructor|apply Permutation_cons_append]. Qed.
 
 Lemma pair_apply ops nd s op : pair_inv ops nd s -> nth_error ops (applied nd) = Some op ->
-  clean_op op = true -> accepts op = true -> in_premise op = true -> pending nd = None ->
+  clean_op op = true -> accepts op = true -> in_premise op = true ->
   pair_inv ops (apply_entry op nd) (mksnode (S (applied nd)) (s_hist s ++ [applied nd]) (s_pending s) (s_labels s)).
-Proof. intros P E Hc Ha Hp Hpe. pose proof P as [H1 H2 H3 H4 H5 H6 H7]. pose proof H1 as [Hd Hcr _ _ _ _ _].
+Proof. intros P E Hc Ha Hp. pose proof P as [H1 H2 H3 H4 H5 H6 H7]. pose proof H1 as [Hd Hcr _ _ _].
   destruct (apply_entry_clean op nd Hc Ha Hd Hcr) as [E1 [E2 [E3 [E4 [E5 [E6 [E7 E8]]]]]]].
   assert (Hlt : (applied nd < length ops)%nat) by (apply nth_error_Some; congruence).
   constructor; cbn [s_applied s_pending s_labels s_hist].
-  - apply strict_apply; auto. unfold good_op. now rewrite Hc, Ha.
+  - apply core_apply; auto. unfold good_op. now rewrite Hc, Ha.
   - now rewrite E2.
   - now rewrite E6.
   - now rewrite E7.
@@ -245,11 +379,11 @@ Proof. intros P E Hc Ha Hp Hpe. pose proof P as [H1 H2 H3 H4 H5 H6 H7]. pose pro
     + rewrite (proj_track p Hp). now apply perm_cons_snoc.
     + now apply perm_cons_snoc. Qed.
 
-Lemma sim_apply cl lg sn n j : inv cmds cl lg sn -> pending (getn n cl) = None -> applied (getn n cl) = j ->
+Lemma sim_apply cl lg sn n j : inv cmds cl lg sn -> applied (getn n cl) = j ->
   (j < length (log cl))%nat ->
   inv cmds (step cl (MApply n)) lg (supd n (fun s => mksnode (S j) (s_hist s ++ [j]) (s_pending s) (s_labels s)) sn) /\
   s_applied (sgetn n sn) = j /\ (j < length lg)%nat.
-Proof. intros I Hp Ha Hj. pose proof (inv_get cmds cl lg sn n I) as P. split; [|split].
+Proof. intros I Ha Hj. pose proof (inv_get cmds cl lg sn n I) as P. split; [|split].
   - cbn [step]. rewrite Ha. destruct (nth_error (log cl) j) as [op|] eqn:E; [|apply nth_error_None in E; lia].
     destruct (inv_good_nth cl lg sn j op I E) as [Hc [Hac Hpr]].
     apply inv_upd; auto. intros P'. rewrite <- Ha. apply pair_apply; auto. now rewrite Ha.
@@ -257,7 +391,7 @@ Proof. intros I Hp Ha Hj. pose proof (inv_get cmds cl lg sn n I) as P. split; [|
   - now rewrite <- (inv_len cl lg sn I). Qed.
 
 Lemma sim_no_crash cl lg sn n : inv cmds cl lg sn -> crashed (getn n (step cl (MApply n))) = false.
-Proof. intros I. pose proof (inv_get cmds cl lg sn n I) as P. pose proof (pi_strict _ _ _ P) as [Hd Hcr _ _ _ _ _].
+Proof. intros I. pose proof (inv_get cmds cl lg sn n I) as P. pose proof (pi_core _ _ _ P) as [Hd Hcr _ _ _].
   cbn [step]. destruct (nth_error (log cl) (applied (getn n cl))) as [op|] eqn:E; [|exact Hcr].
   destruct (inv_good_nth cl lg sn _ op I E) as [Hc [Hac _]]. rewrite getn_upd_same.
   destruct (nth_error (nodes cl) n) as [x|] eqn:Ex; [|reflexivity].
@@ -271,7 +405,7 @@ Lemma sim_snapreq cl lg sn n ok : inv cmds cl lg sn ->
       (supd n (fun s => mksnode (s_applied s) (s_hist s) (if ok then Some (s_applied s) else None) (s_labels s)) sn).
 Proof. intros I Hb. cbn [step] in *. rewrite (getn_upd_fix _ _ _ _ snap_req0) in Hb. fold (getn n cl) in Hb.
   apply Bool.eqb_prop in Hb. apply inv_upd; auto. intros P. pose proof P as [H1 H2 H3 H4 H5 H6 H7].
-  pose proof H1 as [Hd Hcr _ _ _ _ _]. pose proof (strict_snap_req _ _ H1) as S1.
+  pose proof H1 as [Hd Hcr _ _ _]. pose proof (core_snap_req _ _ H1) as S1.
   unfold snap_req in *. rewrite Hcr in *. cbn [pending] in Hb.
   constructor; cbn [s_applied s_pending s_labels s_hist applied pending snaps inited calls]; auto.
   rewrite H2, Hb. destruct (inited (getn n cl) && negb (incons (getn n cl))); reflexivity. Qed.
@@ -281,24 +415,21 @@ Lemma sim_persist cl lg sn n : inv cmds cl lg sn ->
   inv cmds (step cl (MPersist n)) lg
       (supd n (fun s => mksnode (s_applied s) (s_hist s) None (match s_pending s with Some l => s_labels s ++ [l] | None => s_labels s end)) sn).
 Proof. intros I. cbn [step]. apply inv_upd; auto. intros P. pose proof P as [H1 H2 H3 H4 H5 H6 H7].
-  pose proof (strict_persist _ _ H1) as S1. unfold snap_persist in *. rewrite H3.
+  pose proof (core_persist _ _ H1) as S1. unfold snap_persist in *. rewrite H3.
   destruct (pending (getn n cl)) as [l|] eqn:Ep.
   - constructor; cbn [s_applied s_pending s_labels s_hist applied pending snaps inited calls]; auto.
     rewrite map_app, H4. reflexivity.
   - constructor; cbn [s_applied s_pending s_labels s_hist]; auto. Qed.
 
-(* ORestore *)
-Lemma sim_restore cl lg sn n src k s : inv cmds cl lg sn -> pending (getn n cl) = None ->
-  nth_error (snaps (getn src cl)) k = Some s ->
+(* ORestore: of a snapshot that is the replay of the prefix it is labelled with *)
+Lemma sim_restore cl lg sn n src k s : inv cmds cl lg sn ->
+  nth_error (snaps (getn src cl)) k = Some s -> snap_strict (log cl) s ->
   inv cmds (step cl (MRestore n src k)) lg (supd n (fun x => mksnode (fst s) (s_hist x) (s_pending x) (s_labels x)) sn) /\
   (fst s <= length lg)%nat.
-Proof. intros I Hp Es.
-  assert (Hs : snap_strict (log cl) s).
-  { pose proof (pi_strict _ _ _ (inv_get cmds cl lg sn src I)) as [_ _ _ _ _ _ G7]. rewrite Forall_forall in G7. apply G7.
-    eapply nth_error_In; eauto. }
+Proof. intros I Es Hs.
   split; [|destruct Hs as [S1 _]; now rewrite <- (inv_len cl lg sn I)].
   cbn [step]. rewrite Es. apply inv_upd; auto. intros P. pose proof P as [H1 H2 H3 H4 H5 H6 H7].
-  pose proof H1 as [Hd Hcr _ _ _ _ _]. pose proof (strict_restore _ _ s H1 Hs Hp) as S1.
+  pose proof H1 as [Hd Hcr _ _ _]. pose proof (core_restore _ _ s H1 Hs) as S1.
   unfold restore in *. rewrite Hcr in *.
   constructor; cbn [s_applied s_pending s_labels s_hist applied pending snaps inited calls]; auto. discriminate. Qed.
 
@@ -306,7 +437,7 @@ Proof. intros I Hp Es.
 Lemma sim_restart cl lg sn n : inv cmds cl lg sn ->
   inv cmds (step cl (MRestart n)) lg (supd n (fun s => mksnode 0 (s_hist s) None (s_labels s)) sn).
 Proof. intros I. cbn [step]. apply inv_upd; auto. intros P. pose proof P as [H1 H2 H3 H4 H5 H6 H7].
-  pose proof (strict_restart _ _ H1) as S1. unfold restart in *.
+  pose proof (core_restart _ _ H1) as S1. unfold restart in *.
   constructor; cbn [s_applied s_pending s_labels s_hist applied pending snaps inited calls]; auto. Qed.
 
 (* observations *)
@@ -330,17 +461,18 @@ Proof. intros I Hm. pose proof (inv_get cmds cl lg sn n I) as P. destruct I as [
   - apply Permutation_sym, (pi_calls _ _ _ P).
   - apply Permutation_map. now apply multiset_eqb_perm. Qed.
 
-Lemma sim_offline cl lg sn n l : inv cmds cl lg sn -> pins_eqb (map snd (offline (getn n cl))) l = true ->
+(* OOffline: the newest snapshot is the replay of the prefix it is labelled with *)
+Lemma sim_offline cl lg sn n l : inv cmds cl lg sn ->
+  (forall s r, rev (snaps (getn n cl)) = s :: r -> snap_strict (log cl) s) ->
+  pins_eqb (map snd (offline (getn n cl))) l = true ->
   match rev (s_labels (sgetn n sn)) with
   | [] => match l with [] => true | _ => false end
   | lb :: _ => pins_eqb (map snd (replay (firstn lb (map (cmd_of cmds) lg)))) l end = true.
-Proof. intros I Hv. pose proof (inv_get cmds cl lg sn n I) as P. destruct I as [H1 _]. rewrite <- H1.
+Proof. intros I Hs Hv. pose proof (inv_get cmds cl lg sn n I) as P. destruct I as [H1 _]. rewrite <- H1.
   rewrite (pi_labels _ _ _ P), <- map_rev. unfold offline in Hv.
-  pose proof (pi_strict _ _ _ P) as [_ _ _ _ _ _ G7].
   destruct (rev (snaps (getn n cl))) as [|s r] eqn:Er; cbn [map].
   - cbn in Hv. destruct l; [reflexivity|discriminate].
-  - assert (Hin : In s (snaps (getn n cl))) by (apply in_rev; rewrite Er; now left).
-    rewrite Forall_forall in G7. destruct (G7 s Hin) as [_ S2].
+  - destruct (Hs s r eq_refl) as [_ S2].
     rewrite restore_merge_nil_id in Hv by (rewrite S2; apply sorted_replay). now rewrite S2 in Hv. Qed.
 
 (* ORecovered: a new process replays m committed entries, m0 <= m *)
@@ -348,24 +480,24 @@ Lemma getn_apply_in cl n x op : nth_error (nodes cl) n = Some x -> nth_error (lo
   getn n (step cl (MApply n)) = apply_entry op x.
 Proof. intros Ex E. cbn [step]. rewrite (getn_nth n cl x Ex), E, getn_upd_same, Ex. reflexivity. Qed.
 
-Lemma cand_view n : forall m cl lg sn, inv cmds cl lg sn -> (n < length (nodes cl))%nat -> pending (getn n cl) = None ->
+Lemma cand_view n : forall m cl lg sn, inv cmds cl lg sn -> (n < length (nodes cl))%nat ->
   view (getn n (fold_left step (repeat (MApply n) m) cl)) = Some (replay (firstn (applied (getn n cl) + m) (log cl))).
-Proof. induction m as [|m IH]; intros cl lg sn I Hn Hp.
+Proof. induction m as [|m IH]; intros cl lg sn I Hn.
   - cbn [repeat fold_left]. rewrite Nat.add_0_r. exact (view_strict _ _ _ (inv_get cmds cl lg sn n I)).
   - cbn [repeat fold_left]. destruct (nth_error (nodes cl) n) as [x|] eqn:Ex; [|apply nth_error_None in Ex; lia].
     pose proof (getn_nth n cl x Ex) as Eg. rewrite Eg in *.
     destruct (nth_error (log cl) (applied x)) as [op|] eqn:E.
     + assert (Hlt : (applied x < length (log cl))%nat) by (apply nth_error_Some; congruence).
-      destruct (sim_apply cl lg sn n (applied x) I) as [I' _]; auto; [now rewrite Eg|now rewrite Eg|].
+      destruct (sim_apply cl lg sn n (applied x) I) as [I' _]; auto; [now rewrite Eg|].
       destruct (inv_good_nth cl lg sn _ op I E) as [Hc [Hac _]].
-      pose proof (pi_strict _ _ _ (inv_get cmds cl lg sn n I)) as [Hd Hcr _ _ _ _ _]. rewrite Eg in Hd, Hcr.
+      pose proof (pi_core _ _ _ (inv_get cmds cl lg sn n I)) as [Hd Hcr _ _ _]. rewrite Eg in Hd, Hcr.
       destruct (apply_entry_clean op x Hc Hac Hd Hcr) as [_ [E2 [_ [_ [_ [E6 _]]]]]].
       pose proof (getn_apply_in cl n x op Ex E) as Ea.
-      rewrite (IH _ lg _ I'); [|now rewrite step_nodes_length|now rewrite Ea, E6].
+      rewrite (IH _ lg _ I'); [|now rewrite step_nodes_length].
       rewrite Ea, E2. replace (log (step cl (MApply n))) with (log cl) by (cbn [step]; rewrite Eg, E; reflexivity).
       f_equal. f_equal. f_equal. lia.
     + assert (Es : step cl (MApply n) = cl) by (cbn [step]; now rewrite Eg, E). rewrite Es.
-      rewrite (IH cl lg sn I Hn); [|now rewrite Eg]. rewrite Eg. apply nth_error_None in E.
+      rewrite (IH cl lg sn I Hn). rewrite Eg. apply nth_error_None in E.
       now rewrite !firstn_all2 by lia. Qed.
 
 Lemma sim_recovered cl lg sn n m0 o c : inv cmds cl lg sn -> (n < length (nodes cl))%nat ->
@@ -377,71 +509,369 @@ Lemma sim_recovered cl lg sn n m0 o c : inv cmds cl lg sn -> (n < length (nodes 
 Proof. intros I Hn F. apply find_some in F. destruct F as [Hin Hv]. apply in_map_iff in Hin. destruct Hin as [m [<- Hm]].
   pose proof (sim_restart cl lg sn n I) as I0.
   assert (E0 : getn n (step cl (MRestart n)) = restart (getn n cl)) by (cbn [step]; now rewrite (getn_upd_fix _ restart n _ eq_refl)).
-  rewrite (cand_view n m _ lg _ I0) in Hv; [|now rewrite step_nodes_length|now rewrite E0].
+  rewrite (cand_view n m _ lg _ I0) in Hv; [|now rewrite step_nodes_length].
   rewrite E0 in Hv. cbn [restart applied step log Nat.add] in Hv. destruct o as [l|]; [|discriminate]. cbn [view_matches] in Hv.
   apply existsb_exists. exists m. destruct I as [H1 _]. rewrite <- H1. split; [|exact Hv].
   rewrite <- (map_length (cmd_of cmds) lg), <- H1. exact Hm. Qed.
 
-(* ---------- the whole trace ---------- *)
+(* ---------- part B, event by event ---------- *)
+Lemma rec_apply cl lg sn pend cnt late n op : inv cmds cl lg sn -> rec_inv (log cl) pend cnt late (nodes cl) ->
+  nth_error (log cl) (applied (getn (nn n) cl)) = Some op ->
+  rec_inv (log cl) (touch n pend) cnt late (upd (nn n) (apply_entry op) (nodes cl)).
+Proof. intros I R E. destruct (inv_good_nth cl lg sn _ op I E) as [Hc [Hac _]].
+  pose proof (pi_core _ _ _ (inv_get cmds cl lg sn (nn n) I)) as [Hd Hcr _ _ _].
+  apply (rec_upd _ pend _ cnt _ late); auto.
+  - intros k Hk. now apply aget_touch_other.
+  - intros x Ex [R1 R2 R3]. rewrite (getn_nth _ cl x Ex) in Hd, Hcr.
+    destruct (apply_entry_clean op x Hc Hac Hd Hcr) as [_ [_ [_ [_ [_ [E6 [E7 _]]]]]]]. rewrite of_nat_nn in *.
+    constructor; rewrite ?of_nat_nn, ?E6, ?E7; auto.
+    intros l Hl. destruct (R1 l Hl) as [b [Hb _]]. exists true. split; [eapply aget_touch_same; eauto|discriminate]. Qed.
+
+Lemma rec_restore cl lg sn pend cnt late n s : inv cmds cl lg sn -> rec_inv (log cl) pend cnt late (nodes cl) ->
+  rec_inv (log cl) (touch n pend) cnt late (upd (nn n) (restore s) (nodes cl)).
+Proof. intros I R. pose proof (pi_core _ _ _ (inv_get cmds cl lg sn (nn n) I)) as [_ Hcr _ _ _].
+  apply (rec_upd _ pend _ cnt _ late); auto.
+  - intros k Hk. now apply aget_touch_other.
+  - intros x Ex [R1 R2 R3]. rewrite (getn_nth _ cl x Ex) in Hcr. unfold restore. rewrite Hcr. rewrite of_nat_nn in *.
+    constructor; rewrite ?of_nat_nn; cbn [pending snaps applied]; auto.
+    intros l Hl. destruct (R1 l Hl) as [b [Hb _]]. exists true. split; [eapply aget_touch_same; eauto|discriminate]. Qed.
+
+Lemma rec_snapreq cl lg sn pend cnt late n (ok : bool) : inv cmds cl lg sn -> rec_inv (log cl) pend cnt late (nodes cl) ->
+  Bool.eqb ok (match pending (getn (nn n) (step cl (MSnapReq (nn n)))) with Some _ => true | None => false end) = true ->
+  rec_inv (log cl) (if ok then aput n false pend else pend) cnt late (upd (nn n) snap_req (nodes cl)).
+Proof. intros I R Hb. cbn [step] in Hb. rewrite (getn_upd_fix _ _ _ _ snap_req0) in Hb. fold (getn (nn n) cl) in Hb.
+  apply Bool.eqb_prop in Hb. pose proof (pi_core _ _ _ (inv_get cmds cl lg sn (nn n) I)) as [_ Hcr _ _ _].
+  apply (rec_upd _ pend _ cnt _ late); auto.
+  - intros k Hk. destruct ok; [now apply aget_aput_other|reflexivity].
+  - intros x Ex [R1 R2 R3]. rewrite (getn_nth _ cl x Ex) in Hcr, Hb. unfold snap_req in *. rewrite Hcr in *. cbn [pending] in Hb.
+    constructor; rewrite ?of_nat_nn; cbn [pending snaps applied]; auto; [|now rewrite of_nat_nn in R2|now rewrite of_nat_nn in R3].
+    intros l Hl. destruct ok.
+    + exists false. split; [apply aget_aput_same|]. intros _.
+      destruct (inited x && negb (incons x)); [now injection Hl as <-|discriminate].
+    + rewrite Hl in Hb. discriminate. Qed.
+
+Lemma rec_persist cl lg sn pend cnt late n l0 : inv cmds cl lg sn -> rec_inv (log cl) pend cnt late (nodes cl) ->
+  pending (getn (nn n) cl) = Some l0 ->
+  rec_inv (log cl) (adel n pend) (aput n (cnt_of n cnt + 1) cnt)
+          (match aget n pend with Some true => (n, cnt_of n cnt) :: late | _ => late end) (upd (nn n) snap_persist (nodes cl)).
+Proof. intros I R Hp. pose proof (pi_core _ _ _ (inv_get cmds cl lg sn (nn n) I)) as [_ _ _ Ha Hst].
+  apply (rec_upd _ pend _ cnt _ late); auto.
+  - intros k Hk. now apply aget_adel_other.
+  - intros k Hk. now apply cnt_of_aput_other.
+  - intros a b Hl. destruct (aget n pend) as [[|]|]; auto. eapply is_late_cons; eauto.
+  - intros x Ex [R1 R2 R3]. rewrite (getn_nth _ cl x Ex) in Hp, Ha, Hst. rewrite of_nat_nn in *. unfold snap_persist. rewrite Hp.
+    constructor; rewrite ?of_nat_nn; cbn [pending snaps applied].
+    + intros l Hl. discriminate.
+    + rewrite cnt_of_aput_same, R2, app_length. cbn [length]. lia.
+    + intros k s Hs Hl. destruct (Nat.lt_ge_cases k (length (snaps x))) as [Hlt|Hge].
+      * rewrite nth_error_app1 in Hs by exact Hlt. apply (R3 k s Hs).
+        destruct (aget n pend) as [[|]|]; auto. eapply is_late_cons; eauto.
+      * assert (Hk : k = length (snaps x)).
+        { assert (k < length (snaps x ++ [(l0, st x)]))%nat by (apply nth_error_Some; congruence).
+          rewrite app_length in *. cbn [length] in *. lia. }
+        subst k. rewrite nth_error_app2, Nat.sub_diag in Hs by lia. cbn in Hs. injection Hs as <-.
+        destruct (R1 l0 Hp) as [b [Hb Hb2]]. rewrite Hb in Hl. destruct b.
+        -- rewrite R2, is_late_hd in Hl. discriminate.
+        -- rewrite (Hb2 eq_refl). split; cbn [fst snd]; auto. Qed.
+
+Lemma rec_restart cl pend cnt late n : rec_inv (log cl) pend cnt late (nodes cl) ->
+  rec_inv (log cl) (adel n pend) cnt late (upd (nn n) restart (nodes cl)).
+Proof. intros R. apply (rec_upd _ pend _ cnt _ late); auto.
+  - intros k Hk. now apply aget_adel_other.
+  - intros x Ex [R1 R2 R3]. constructor; cbn [restart pending snaps applied]; auto. intros l Hl. discriminate. Qed.
+
+(* ---------- one event ---------- *)
+Definition inv2 (cl : cluster) (lg : list N) (sn : list snode) (pend : list (N * bool)) (cnt late : list (N * N)) : Prop :=
+  inv cmds cl lg sn /\ rec_inv (log cl) pend cnt late (nodes cl).
+
 Lemma is_none_true {A} (o : option A) : match o with None => true | Some _ => false end = true -> o = None.
 Proof. destruct o; [discriminate|reflexivity]. Qed.
+Lemma is_some_true {A} (o : option A) : match o with Some _ => true | None => false end = true -> exists x, o = Some x.
+Proof. destruct o; [eauto|discriminate]. Qed.
 
-Lemma sim_run k : forall es cl lg sn, inv cmds cl lg sn -> length (nodes cl) = k ->
-  guard_run k cmds cl es = true -> model_run cmds cl es = true -> spec_run_sel core cmds lg sn es = true.
-Proof. induction es as [|e r IH]; intros cl lg sn I Hk Hg Hm; [reflexivity|].
-  cbn [guard_run] in Hg. apply andb_true_iff in Hg. destruct Hg as [Hg1 Hg2].
-  cbn [model_run] in Hm. destruct (model_step cmds cl e) as [cl' ok] eqn:Em. apply andb_true_iff in Hm. destruct Hm as [-> Hm].
-  cbn [fst] in Hg2. cbn [spec_run_sel].
+(* the model accepts the event, the recogniser does not flag it: the monitor's conjunct holds (C17's OReady excepted) and the
+   invariant goes on - except past the R3 observation, which ends its trace *)
+Lemma sim_step k cl lg sn pend cnt late e rest cl' lg' sn' ok pend' cnt' late' :
+  inv2 cl lg sn pend cnt late -> length (nodes cl) = k -> wf_step k cmds e rest = true ->
+  model_step cmds lg cl e = (cl', true) ->
+  spec_step cmds lg sn e = (lg', sn', ok) ->
+  late_step pend cnt late e = (pend', cnt', late', false) ->
+  (core e = true -> ok = true) /\
+  (rest = [] \/ (inv2 cl' lg' sn' pend' cnt' late' /\ lg' = log_step cmds lg e /\ length (nodes cl') = k)).
+Proof. intros [I R] Hk Hw Em Es El.
   destruct e as [c|n j|n j|n okk|n|n src kk lbl|n|c n|n o|n cs|n l|n m0 o|n m0 q o];
-    cbn [model_step] in Em; cbn [spec_step core guard_step] in *.
-  - (* OCommit *) injection Em as <- Ha. apply Nat.ltb_lt in Hg1. cbn [andb].
-    apply (IH _ _ _ (sim_commit cl lg sn c I Hg1 Ha)); auto. now rewrite step_nodes_length.
-  - (* OApply *) injection Em as <- Eok. apply is_none_true in Hg1. rewrite !andb_true_iff in Eok. destruct Eok as [[E1 _] E3].
-    apply Nat.eqb_eq in E1. apply Nat.ltb_lt in E3.
-    destruct (sim_apply cl lg sn (nn n) (nn j) I Hg1 E1 E3) as [I' [A1 A2]].
-    rewrite A1, Nat.eqb_refl. cbn [andb]. apply Nat.ltb_lt in A2. rewrite A2. cbn [andb].
-    apply (IH _ _ _ I'); auto. now rewrite step_nodes_length.
-  - (* OCrash: the model never crashes on a trace in the premise *) injection Em as <- Eok. exfalso.
+    unfold model_step in Em; cbv zeta in Em; cbn [spec_step] in Es; cbn [late_step] in El; cbn [wf_step] in Hw; cbn [core log_step].
+  - (* OCommit *) split_model Em Ha. injection Es as <- <- <-. injection El as <- <- <-. apply Nat.ltb_lt in Hw.
+    split; [reflexivity|]. right. rewrite Ha. split; [|split; [reflexivity|now rewrite step_nodes_length]].
+    split; [now apply sim_commit|]. cbn [step]. rewrite Ha. cbn [log nodes]. now apply rec_commit.
+  - (* OApply *) split_model Em Eok. injection Es as <- <- <-. injection El as <- <- <-.
+    rewrite !andb_true_iff in Eok. destruct Eok as [[E1 _] E3]. apply Nat.eqb_eq in E1. apply Nat.ltb_lt in E3.
+    destruct (sim_apply cl lg sn (nn n) (nn j) I E1 E3) as [I' [A1 A2]].
+    split; [intros _; rewrite A1, Nat.eqb_refl; apply Nat.ltb_lt in A2; now rewrite A2|].
+    right. split; [|split; [reflexivity|now rewrite step_nodes_length]]. split; [exact I'|].
+    cbn [step]. destruct (nth_error (log cl) (applied (getn (nn n) cl))) as [op|] eqn:E; [|apply nth_error_None in E; lia].
+    cbn [log nodes]. eapply rec_apply; eauto.
+  - (* OCrash: the model never crashes on a trace in the premise *) split_model Em Eok. exfalso.
     rewrite andb_true_iff in Eok. destruct Eok as [_ E2].
-    pose proof (sim_no_crash cl lg sn (nn n) I) as X. cbn [step] in X. rewrite X in E2. discriminate.
-  - (* OSnapReq *) injection Em as <- Eok. cbn [andb].
-    apply (IH _ _ _ (sim_snapreq cl lg sn (nn n) okk I Eok)); auto. now rewrite step_nodes_length.
-  - (* OPersist *) injection Em as <- _. cbn [andb].
-    apply (IH _ _ _ (sim_persist cl lg sn (nn n) I)); auto. now rewrite step_nodes_length.
-  - (* ORestore *) injection Em as <- Eok. apply is_none_true in Hg1.
-    destruct (nth_error (snaps (getn (nn src) cl)) (nn kk)) as [s|] eqn:Es; [|discriminate].
+    pose proof (sim_no_crash cl lg sn (nn n) I) as X. rewrite X in E2. discriminate.
+  - (* OSnapReq *) split_model Em Eok. injection Es as <- <- <-.
+    split; [reflexivity|]. right.
+    assert (El' : (pend', cnt', late') = (if okk then aput n false pend else pend, cnt, late)) by (destruct okk; congruence).
+    injection El' as -> -> ->.
+    split; [|split; [reflexivity|now rewrite step_nodes_length]]. split; [now apply sim_snapreq|].
+    cbn [step log nodes]. eapply rec_snapreq; eauto.
+  - (* OPersist *) split_model Em Eok. injection Es as <- <- <-. injection El as <- <- <-.
+    split; [reflexivity|]. right. apply is_some_true in Eok. destruct Eok as [l0 Ep].
+    split; [|split; [reflexivity|now rewrite step_nodes_length]]. split; [now apply sim_persist|].
+    cbn [step log nodes]. eapply rec_persist; eauto.
+  - (* ORestore *) split_model Em Eok. injection Es as <- <- <-. injection El as <- <- <- Hl.
+    destruct (nth_error (snaps (getn (nn src) cl)) (nn kk)) as [s|] eqn:Esn; [|discriminate].
     rewrite !andb_true_iff in Eok. destruct Eok as [E1 _]. apply Nat.eqb_eq in E1.
-    destruct (sim_restore cl lg sn (nn n) (nn src) (nn kk) s I Hg1 Es) as [I' A]. rewrite E1 in I', A.
-    apply Nat.leb_le in A. rewrite A. cbn [andb]. cbn [step] in I'. rewrite Es in I'.
-    apply (IH _ _ _ I'); auto. cbn [nodes]. now rewrite upd_length.
-  - (* ORestart *) injection Em as <-. cbn [andb].
-    apply (IH _ _ _ (sim_restart cl lg sn (nn n) I)); auto. now rewrite step_nodes_length.
-  - (* OAck *) injection Em as <-. cbn [andb]. apply (IH _ _ _ I); auto.
-  - (* OObs *) injection Em as <- Eok. rewrite andb_true_iff in Eok. destruct Eok as [_ E2].
-    pose proof (sim_obs cl lg sn (nn n) o I E2) as X. cbv zeta in X |- *. rewrite X. cbn [andb]. apply (IH _ _ _ I); auto.
-  - (* OTrk *) injection Em as <- Eok. pose proof (sim_trk cl lg sn (nn n) cs I Eok) as X. cbv zeta in X |- *. rewrite X. cbn [andb]. apply (IH _ _ _ I); auto.
-  - (* OOffline *) injection Em as <- Eok. pose proof (sim_offline cl lg sn (nn n) l I Eok) as X. cbv zeta in X |- *. rewrite X. cbn [andb]. apply (IH _ _ _ I); auto.
-  - (* ORecovered: the last event *) apply andb_true_iff in Hg1. destruct Hg1 as [G1 G2]. apply Nat.ltb_lt in G1.
-    destruct r as [|e' r']; [|discriminate]. cbn [spec_run_sel]. rewrite andb_true_r.
+    pose proof (rec_snap_strict cl pend cnt late src kk s R Esn Hl) as Hs.
+    destruct (sim_restore cl lg sn (nn n) (nn src) (nn kk) s I Esn Hs) as [I' A]. rewrite E1 in I', A.
+    split; [intros _; now apply Nat.leb_le|]. right.
+    split; [|split; [reflexivity|now rewrite step_nodes_length]]. split; [exact I'|].
+    cbn [step]. rewrite Esn. cbn [log nodes]. eapply rec_restore; eauto.
+  - (* ORestart *) split_model Em Eok. injection Es as <- <- <-. injection El as <- <- <-.
+    split; [reflexivity|]. right.
+    split; [|split; [reflexivity|now rewrite step_nodes_length]]. split; [now apply sim_restart|].
+    cbn [step log nodes]. now apply rec_restart.
+  - (* OAck *) split_model Em Eok. injection Es as <- <- <-. injection El as <- <- <-.
+    split; [intros _; now rewrite (pi_applied _ _ _ (inv_get cmds cl lg sn (nn n) I))|]. right. split; [split; [exact I|exact R]|split; [reflexivity|exact Hk]].
+  - (* OObs *) split_model Em Eok. injection Es as <- <- <-. injection El as <- <- <-.
+    rewrite andb_true_iff in Eok. destruct Eok as [_ E2].
+    split; [intros _; exact (sim_obs cl lg sn (nn n) o I E2)|]. right. split; [split; [exact I|exact R]|split; [reflexivity|exact Hk]].
+  - (* OTrk *) split_model Em Eok. injection Es as <- <- <-. injection El as <- <- <-.
+    split; [intros _; exact (sim_trk cl lg sn (nn n) cs I Eok)|]. right. split; [split; [exact I|exact R]|split; [reflexivity|exact Hk]].
+  - (* OOffline *) split_model Em Eok. injection Es as <- <- <-. injection El as <- <- <- Hl.
+    split; [intros _|right; split; [split; [exact I|exact R]|split; [reflexivity|exact Hk]]].
+    apply (sim_offline cl lg sn (nn n) l I); auto. intros s r Er. eapply rec_last_strict; eauto.
+  - (* ORecovered: the last event *) apply andb_true_iff in Hw. destruct Hw as [G1 G2]. apply Nat.ltb_lt in G1.
+    destruct rest as [|e' r']; [|discriminate]. split; [|now left]. intros _. injection Es as <- <- <-.
     match type of Em with (match ?f with Some _ => _ | None => _ end) = _ => destruct f as [c|] eqn:F end; [|discriminate].
     apply (sim_recovered cl lg sn (nn n) (nn m0) o c I); [lia|exact F].
-  - (* OReady *) injection Em as <- _. cbn [andb]. apply (IH _ _ _ I); auto. Qed.
+  - (* OReady *) split_model Em Eok. injection Es as <- <- <-. injection El as <- <- <-.
+    split; [discriminate|]. right. split; [split; [exact I|exact R]|split; [reflexivity|exact Hk]]. Qed.
+
+(* ---------- the whole trace ---------- *)
+Lemma sim_run k : forall es cl lg sn pend cnt late, inv2 cl lg sn pend cnt late -> length (nodes cl) = k ->
+  wf_run k cmds es = true -> model_run cmds lg cl es = true -> late_restore pend cnt late es = false ->
+  spec_run_sel core cmds lg sn es = true.
+Proof. induction es as [|e r IH]; intros cl lg sn pend cnt late I Hk Hw Hm Hl; [reflexivity|].
+  cbn [wf_run] in Hw. apply andb_true_iff in Hw. destruct Hw as [Hw1 Hw2].
+  cbn [model_run] in Hm. destruct (model_step cmds lg cl e) as [cl' ok] eqn:Em. apply andb_true_iff in Hm. destruct Hm as [-> Hm].
+  cbn [late_restore] in Hl. destruct (late_step pend cnt late e) as [[[pend' cnt'] late'] f] eqn:El. destruct f; [discriminate|].
+  cbn [spec_run_sel]. destruct (spec_step cmds lg sn e) as [[lg' sn'] ok'] eqn:Es.
+  destruct (sim_step k cl lg sn pend cnt late e r cl' lg' sn' ok' pend' cnt' late' I Hk Hw1 Em Es El) as [Hc [->|[I' [Elg Hk']]]].
+  - cbn [spec_run_sel]. rewrite andb_true_r. destruct (core e); [now apply Hc|reflexivity].
+  - assert (X : (if core e then ok' else true) = true) by (destruct (core e); [now apply Hc|reflexivity]). rewrite X. cbn [andb].
+    rewrite <- Elg in Hm. eapply IH; eauto. Qed.
+
+(* the state the model is in after a prefix of the trace *)
+Fixpoint model_after (lg : list N) (cl : cluster) (pre : list oevent) : cluster * list N :=
+  match pre with
+  | [] => (cl, lg)
+  | e :: r => model_after (log_step cmds lg e) (fst (model_step cmds lg cl e)) r
+  end.
+
+Lemma wf_run_app_nonnil k : forall pre rest, rest <> [] -> wf_run k cmds (pre ++ rest) = true ->
+  forall e r, pre = e :: r -> r ++ rest <> [].
+Proof. intros pre rest Hr _ e r _ E. apply app_eq_nil in E. tauto. Qed.
+
+Lemma sim_prefix k : forall pre rest cl lg sn pend cnt late, inv2 cl lg sn pend cnt late -> length (nodes cl) = k ->
+  rest <> [] -> wf_run k cmds (pre ++ rest) = true -> model_run cmds lg cl (pre ++ rest) = true ->
+  late_restore pend cnt late (pre ++ rest) = false ->
+  exists sn' pend' cnt' late', inv2 (fst (model_after lg cl pre)) (snd (model_after lg cl pre)) sn' pend' cnt' late' /\
+    model_run cmds (snd (model_after lg cl pre)) (fst (model_after lg cl pre)) rest = true.
+Proof. induction pre as [|e r IH]; intros rest cl lg sn pend cnt late I Hk Hr Hw Hm Hl.
+  - cbn [model_after fst snd app] in *. eauto 6.
+  - cbn [app] in Hw, Hm, Hl. cbn [wf_run] in Hw. apply andb_true_iff in Hw. destruct Hw as [Hw1 Hw2].
+    cbn [model_run] in Hm. destruct (model_step cmds lg cl e) as [cl' ok] eqn:Em. apply andb_true_iff in Hm. destruct Hm as [-> Hm].
+    cbn [late_restore] in Hl. destruct (late_step pend cnt late e) as [[[pend' cnt'] late'] f] eqn:El. destruct f; [discriminate|].
+    destruct (spec_step cmds lg sn e) as [[lg' sn'] ok'] eqn:Es.
+    destruct (sim_step k cl lg sn pend cnt late e (r ++ rest) cl' lg' sn' ok' pend' cnt' late' I Hk Hw1 Em Es El) as [_ [E|[I' [Elg Hk']]]].
+    + apply app_eq_nil in E. tauto.
+    + cbn [model_after]. rewrite Em. cbn [fst]. rewrite <- Elg. eapply IH; eauto. now rewrite Elg. Qed.
 End Sim.
 
 (* completeness w.r.t. the model, for every number of replicas, every command table and every trace *)
 Lemma model_passes_monitor_l k cmds es :
-  forallb in_premise cmds = true -> is_S19 cmds = false -> trace_guard k cmds es = true ->
+  forallb in_premise cmds = true -> tag_of cmds es = 0 -> trace_wf k cmds es = true ->
   model_eqb k cmds es = true -> spec_run_sel core cmds [] (repeat snode0 (nn k)) es = true.
-Proof. intros Hp Hs Hg Hm. apply (sim_run cmds (cmds_ok_of cmds Hp Hs) (nn k) es (init (nn k))); auto.
-  - apply inv_init.
+Proof. intros Hp Ht Hw Hm. destruct (tag_of_0 _ _ Ht) as [Hs Hl].
+  apply (sim_run cmds (cmds_ok_of cmds Hp Hs) (nn k) es (init (nn k)) [] (repeat snode0 (nn k)) [] [] []); auto.
+  - split; [apply inv_init|apply rec_init].
   - cbn [init nodes]. apply repeat_length. Qed.
 
-(* with the conjuncts the model does not speak about, the whole monitor *)
+(* with the conjunct of C17, the whole monitor: a trace the model accepts fails the monitor only with a tag *)
 Lemma model_passes_spec_okb_l k cmds es :
-  is_S19 cmds = false -> trace_guard k cmds es = true -> model_eqb k cmds es = true ->
+  tag_of cmds es = 0 -> trace_wf k cmds es = true -> model_eqb k cmds es = true ->
   spec_run_sel (fun e => negb (core e)) cmds [] (repeat snode0 (nn k)) es = true -> spec_okb k cmds es = true.
-Proof. intros Hs Hg Hm Ha. unfold spec_okb. destruct (forallb in_premise cmds) eqn:Hp; [|reflexivity].
-  rewrite spec_run_split, Ha, (model_passes_monitor_l k cmds es Hp Hs Hg Hm). reflexivity. Qed.
+Proof. intros Ht Hw Hm Ha. unfold spec_okb. destruct (forallb in_premise cmds) eqn:Hp; [|reflexivity].
+  rewrite spec_run_split, Ha, (model_passes_monitor_l k cmds es Hp Ht Hw Hm). reflexivity. Qed.
+
+Lemma no_untagged_failure_l k cmds es :
+  trace_wf k cmds es = true -> model_eqb k cmds es = true ->
+  spec_run_sel (fun e => negb (core e)) cmds [] (repeat snode0 (nn k)) es = true ->
+  spec_okb k cmds es = false -> tag_of cmds es <> 0.
+Proof. intros Hw Hm Ha Hf Ht. rewrite (model_passes_spec_okb_l k cmds es Ht Hw Hm Ha) in Hf. discriminate. Qed.
+
+(* ---------- the atomic guard of the theorems implies that the recogniser is silent ---------- *)
+Lemma pending_apply_entry op nd : pending (apply_entry op nd) = pending nd.
+Proof. unfold apply_entry. destruct (crashed nd); [reflexivity|].
+  destruct op as [p|p|p| | |]; cbn [pending];
+    repeat match goal with |- context [if ?b then _ else _] => destruct b end; reflexivity. Qed.
+Lemma pending_restore s nd : pending (restore s nd) = pending nd.
+Proof. unfold restore. destruct (crashed nd); reflexivity. Qed.
+
+Lemma pending_getn_upd lg f n i l : (forall x, pending (f x) = pending x) ->
+  pending (getn i (mkcluster lg (upd n f l))) = pending (nth i l node0).
+Proof. intros Hf. destruct (Nat.eq_dec n i) as [<-|Hne].
+  - rewrite getn_upd_same. destruct (nth_error l n) as [x|] eqn:E.
+    + now rewrite Hf, (nth_error_nth l n node0 E).
+    + now rewrite nth_overflow by (now apply nth_error_None).
+  - now rewrite getn_upd_other. Qed.
+
+(* commits, applies and restores leave every replica's pending snapshot as it is *)
+Lemma pending_step_same cl ev i : (match ev with MCommit _ | MApply _ | MRestore _ _ _ => true | _ => false end) = true ->
+  pending (getn i (step cl ev)) = pending (getn i cl).
+Proof. destruct ev as [op|n|n|n|n src k|n]; intros H; try discriminate; cbn [step].
+  - destruct (accepts op); reflexivity.
+  - destruct (nth_error (log cl) (applied (getn n cl))) as [op|]; [|reflexivity].
+    apply pending_getn_upd. intros x. apply pending_apply_entry.
+  - destruct (nth_error (snaps (getn src cl)) k) as [s|]; [|reflexivity].
+    apply pending_getn_upd. intros x. apply pending_restore. Qed.
+(* the other events touch one replica *)
+Lemma pending_step_other cl ev m i : (match ev with MSnapReq x | MPersist x | MRestart x => Nat.eqb x m | _ => false end) = true ->
+  m <> i -> pending (getn i (step cl ev)) = pending (getn i cl).
+Proof. destruct ev as [op|n|n|n|n src k|n]; intros H Hne; try discriminate; apply Nat.eqb_eq in H; subst m; cbn [step];
+    now rewrite getn_upd_other. Qed.
+
+Lemma nn_inj a b : nn a = nn b -> a = b.
+Proof. apply N2Nat.inj. Qed.
+
+Lemma aget_touch_true n k pend : aget k (touch n pend) = Some true -> k = n \/ aget k pend = Some true.
+Proof. destruct (N.eq_dec k n) as [->|Hne]; [now left|]. rewrite aget_touch_other by exact Hne. now right. Qed.
+
+Lemma atomic_not_late_run cmds k : forall es lg cl pend cnt,
+  (forall n, aget n pend = Some true -> pending (getn (nn n) cl) = None) ->
+  guard_run k cmds lg cl es = true -> model_run cmds lg cl es = true -> late_restore pend cnt [] es = false.
+Proof. induction es as [|e r IH]; intros lg cl pend cnt J Hg Hm; [reflexivity|].
+  cbn [guard_run] in Hg. apply andb_true_iff in Hg. destruct Hg as [Hg1 Hg2].
+  cbn [model_run] in Hm. destruct (model_step cmds lg cl e) as [cl' ok] eqn:Em. apply andb_true_iff in Hm. destruct Hm as [-> Hm].
+  cbn [fst] in Hg2. cbn [late_restore].
+  destruct e as [c|n j|n j|n okk|n|n src kk lbl|n|c n|n o|n cs|n l|n m0 o|n m0 q o];
+    unfold model_step in Em; cbv zeta in Em; cbn [late_step guard_step] in *.
+  - (* OCommit *) split_model Em Ha. eapply IH; [|exact Hg2|exact Hm]. intros n Hn. rewrite pending_step_same; auto.
+  - (* OApply *) split_model Em Ha. apply is_none_true in Hg1. eapply IH; [|exact Hg2|exact Hm]. intros n' Hn.
+    rewrite pending_step_same by reflexivity. destruct (aget_touch_true _ _ _ Hn) as [->|Hn']; auto.
+  - (* OCrash *) split_model Em Ha. eapply IH; [|exact Hg2|exact Hm]. intros n' Hn. rewrite pending_step_same by reflexivity. auto.
+  - (* OSnapReq *) split_model Em Ha. destruct okk.
+    + eapply IH; [|exact Hg2|exact Hm]. intros n' Hn. destruct (N.eq_dec n' n) as [->|Hne].
+      * rewrite aget_aput_same in Hn. discriminate.
+      * rewrite aget_aput_other in Hn by exact Hne.
+        rewrite (pending_step_other cl (MSnapReq (nn n)) (nn n)); auto; [apply Nat.eqb_refl|]. intros E. apply nn_inj in E. congruence.
+    + eapply IH; [|exact Hg2|exact Hm]. intros n' Hn. destruct (N.eq_dec n' n) as [->|Hne].
+      * apply Bool.eqb_prop in Ha. destruct (pending (getn (nn n) (step cl (MSnapReq (nn n))))); [discriminate|reflexivity].
+      * rewrite (pending_step_other cl (MSnapReq (nn n)) (nn n)); auto; [apply Nat.eqb_refl|]. intros E. apply nn_inj in E. congruence.
+  - (* OPersist *) split_model Em Ha.
+    assert (Hl : match aget n pend with Some true => (n, cnt_of n cnt) :: [] | _ => [] end = []).
+    { destruct (aget n pend) as [[|]|] eqn:Ea; auto. rewrite (J n Ea) in Ha. discriminate. }
+    rewrite Hl. eapply IH; [|exact Hg2|exact Hm]. intros n' Hn. destruct (N.eq_dec n' n) as [->|Hne].
+    + rewrite aget_adel_same in Hn. discriminate.
+    + rewrite aget_adel_other in Hn by exact Hne.
+      rewrite (pending_step_other cl (MPersist (nn n)) (nn n)); auto; [apply Nat.eqb_refl|]. intros E. apply nn_inj in E. congruence.
+  - (* ORestore *) split_model Em Ha. apply is_none_true in Hg1. cbn [is_late existsb]. eapply IH; [|exact Hg2|exact Hm]. intros n' Hn.
+    rewrite pending_step_same by reflexivity. destruct (aget_touch_true _ _ _ Hn) as [->|Hn']; auto.
+  - (* ORestart *) split_model Em Ha. eapply IH; [|exact Hg2|exact Hm]. intros n' Hn. destruct (N.eq_dec n' n) as [->|Hne].
+    + rewrite aget_adel_same in Hn. discriminate.
+    + rewrite aget_adel_other in Hn by exact Hne.
+      rewrite (pending_step_other cl (MRestart (nn n)) (nn n)); auto; [apply Nat.eqb_refl|]. intros E. apply nn_inj in E. congruence.
+  - (* OAck *) split_model Em Ha. eapply IH; [|exact Hg2|exact Hm]; exact J.
+  - (* OObs *) split_model Em Ha. eapply IH; [|exact Hg2|exact Hm]; exact J.
+  - (* OTrk *) split_model Em Ha. eapply IH; [|exact Hg2|exact Hm]; exact J.
+  - (* OOffline *) split_model Em Ha. cbn [is_late existsb]. rewrite andb_false_r. eapply IH; [|exact Hg2|exact Hm]; exact J.
+  - (* ORecovered *) apply andb_true_iff in Hg1. destruct Hg1 as [_ G2]. destruct r; [reflexivity|discriminate].
+  - (* OReady *) split_model Em Ha. eapply IH; [|exact Hg2|exact Hm]; exact J. Qed.
+
+Lemma atomic_not_late_l k cmds es : trace_guard k cmds es = true -> model_eqb k cmds es = true -> late_restore [] [] [] es = false.
+Proof. intros Hg Hm. apply (atomic_not_late_run cmds (nn k) es [] (init (nn k))); auto. intros n H. discriminate. Qed.
+
+Lemma guard_wf_run cmds k : forall es lg cl, guard_run k cmds lg cl es = true -> wf_run k cmds es = true.
+Proof. induction es as [|e r IH]; intros lg cl H; [reflexivity|]. cbn [guard_run] in H. apply andb_true_iff in H. destruct H as [H1 H2].
+  cbn [wf_run]. rewrite (IH _ _ H2), andb_true_r. destruct e; cbn [guard_step wf_step] in *; auto. Qed.
+Lemma guard_wf_l k cmds es : trace_guard k cmds es = true -> trace_wf k cmds es = true.
+Proof. apply guard_wf_run. Qed.
+
+(* the statement under the atomic guard of the theorems (no reference to the recogniser) *)
+Lemma model_passes_monitor_atomic_l k cmds es :
+  forallb in_premise cmds = true -> is_S19 cmds = false -> trace_guard k cmds es = true ->
+  model_eqb k cmds es = true -> spec_run_sel core cmds [] (repeat snode0 (nn k)) es = true.
+Proof. intros Hp Hs Hg Hm. apply model_passes_monitor_l; auto using guard_wf_l.
+  unfold tag_of. now rewrite Hs, (atomic_not_late_l k cmds es Hg Hm). Qed.
+
+(* ---------- acknowledgements ---------- *)
+(* the model's log is the committed sequence of command numbers, mapped through the table - on every trace, no guard *)
+Lemma step_log_same cl ev : (match ev with MCommit _ => false | _ => true end) = true -> log (step cl ev) = log cl.
+Proof. destruct ev as [op|n|n|n|n src k|n]; intros H; try discriminate; cbn [step]; auto.
+  - destruct (nth_error (log cl) (applied (getn n cl))); reflexivity.
+  - destruct (nth_error (snaps (getn src cl)) k); reflexivity. Qed.
+Lemma fold_apply_log n : forall m cl, log (fold_left step (repeat (MApply n) m) cl) = log cl.
+Proof. induction m as [|m IH]; intros cl; [reflexivity|]. cbn [repeat fold_left]. rewrite IH. now apply step_log_same. Qed.
+Lemma model_step_log cmds lg cl e : log cl = map (cmd_of cmds) lg ->
+  log (fst (model_step cmds lg cl e)) = map (cmd_of cmds) (log_step cmds lg e).
+Proof. intros H. destruct e as [c|n j|n j|n okk|n|n src kk lbl|n|c n|n o|n cs|n l|n m0 o|n m0 q o];
+    unfold model_step; cbv zeta; cbn [fst log_step]; auto; try (rewrite step_log_same; [exact H|reflexivity]).
+  - cbn [step]. destruct (accepts (cmd_of cmds c)); [|exact H]. cbn [log]. now rewrite map_app, H.
+  - match goal with |- context [find ?f ?l] => destruct (find f l) as [c|] eqn:F end; cbn [fst].
+    + apply find_some in F. destruct F as [Hin _]. apply in_map_iff in Hin. destruct Hin as [m [<- _]].
+      rewrite fold_apply_log, step_log_same; [exact H|reflexivity].
+    + rewrite step_log_same; [exact H|reflexivity]. Qed.
+
+Lemma model_after_log cmds : forall pre lg cl, log cl = map (cmd_of cmds) lg ->
+  log (fst (model_after cmds lg cl pre)) = map (cmd_of cmds) (snd (model_after cmds lg cl pre)).
+Proof. induction pre as [|e r IH]; intros lg cl H; [exact H|]. cbn [model_after]. apply IH. now apply model_step_log. Qed.
+
+Lemma model_run_app cmds : forall pre rest lg cl, model_run cmds lg cl (pre ++ rest) = true ->
+  model_run cmds (snd (model_after cmds lg cl pre)) (fst (model_after cmds lg cl pre)) rest = true.
+Proof. induction pre as [|e r IH]; intros rest lg cl H; [exact H|]. cbn [app model_run] in H. cbn [model_after].
+  destruct (model_step cmds lg cl e) as [cl' ok]. apply andb_true_iff in H. destruct H as [_ H]. cbn [fst]. now apply IH. Qed.
+
+Lemma acked_nth lg a c : acked lg a c = true -> exists j, (j < a)%nat /\ nth_error lg j = Some c.
+Proof. unfold acked. intros H. apply existsb_exists in H. destruct H as [j [Hj He]]. apply in_seq in Hj. apply N.eqb_eq in He.
+  exists j. split; [lia|]. rewrite <- He. apply nth_error_nth'. lia. Qed.
+
+(* an acknowledged operation is in the log at a position its committer has applied: on every trace the model accepts *)
+Lemma ack_in_log_l k cmds pre c n post : model_eqb k cmds (pre ++ OAck c n :: post) = true ->
+  let cl := fst (model_after cmds [] (init (nn k)) pre) in
+  exists j, (j < applied (getn (nn n) cl))%nat /\ nth_error (log cl) j = Some (cmd_of cmds c).
+Proof. intros H. cbv zeta. unfold model_eqb in H. apply model_run_app in H. cbn [model_run model_step] in H.
+  apply andb_true_iff in H. destruct H as [H _]. apply acked_nth in H. destruct H as [j [Hj Hn]]. exists j. split; [exact Hj|].
+  rewrite (model_after_log cmds pre [] (init (nn k)) eq_refl). now apply map_nth_error. Qed.
+
+(* ... hence in the committer's pinset, unless a later operation the committer has applied writes the same cid *)
+Lemma last_write_visible (lg : list logop) a j op x : (j < a)%nat -> nth_error lg j = Some op -> writes x op = true ->
+  existsb (writes x) (slice (S j) a lg) = false -> sget x (replay (firstn a lg)) = effect op.
+Proof. intros Hj Hn Hw Hs. rewrite (firstn_split_slice lg (S j) a) by lia. rewrite (firstn_snoc_nth lg j op Hn).
+  rewrite replay_last_write_l, !lastw_app. apply lastw_none in Hs. rewrite Hs. cbn [lastw]. now rewrite Hw. Qed.
+
+Lemma ack_in_pinset_l k cmds pre c n post :
+  forallb in_premise cmds = true -> tag_of cmds (pre ++ OAck c n :: post) = 0 -> trace_wf k cmds (pre ++ OAck c n :: post) = true ->
+  model_eqb k cmds (pre ++ OAck c n :: post) = true ->
+  let cl := fst (model_after cmds [] (init (nn k)) pre) in
+  let nd := getn (nn n) cl in
+  exists j, (j < applied nd)%nat /\ nth_error (log cl) j = Some (cmd_of cmds c) /\
+    forall x, writes x (cmd_of cmds c) = true -> existsb (writes x) (slice (S j) (applied nd) (log cl)) = false ->
+              sget x (st nd) = effect (cmd_of cmds c).
+Proof. intros Hp Ht Hw Hm. cbv zeta. destruct (ack_in_log_l k cmds pre c n post Hm) as [j [Hj Hn]]. exists j. split; [exact Hj|]. split; [exact Hn|].
+  destruct (tag_of_0 _ _ Ht) as [Hs Hl].
+  destruct (sim_prefix cmds (cmds_ok_of cmds Hp Hs) (nn k) pre (OAck c n :: post) (init (nn k)) [] (repeat snode0 (nn k)) [] [] [])
+    as [sn' [pend' [cnt' [late' [[I _] _]]]]]; auto.
+  - split; [apply inv_init|apply rec_init].
+  - cbn [init nodes]. apply repeat_length.
+  - discriminate.
+  - pose proof (pi_core _ _ _ (inv_get cmds _ _ sn' (nn n) I)) as [_ _ _ _ Hst]. rewrite Hst.
+    intros x Hx Hsl. eapply last_write_visible; eauto. Qed.
 
 (* ---------- soundness: the Prop-level reading of an accepted trace ---------- *)
 (* `lg` is the committed sequence (command numbers) and `sn` the monitor's bookkeeping per replica (next position, positions
@@ -481,8 +911,7 @@ Proof. destruct e as [c|n j|n j|n okk|n|n src kk lbl|n|c n|n o|n cs|n l|n m0 o|n
   - apply andb_true_iff in H. destruct H as [H1 H2]. apply Nat.eqb_eq in H1. apply Nat.ltb_lt in H2. auto.
   - discriminate.
   - now apply Nat.leb_le.
-  - apply existsb_exists in H. destruct H as [j [Hj He]]. apply in_seq in Hj. apply N.eqb_eq in He. exists j. split; [lia|].
-    rewrite <- He. apply nth_error_nth'. lia.
+  - now apply acked_nth.
   - destruct o as [l|]; [|discriminate]. exists l. split; auto. now apply existsb_prefix.
   - now apply multiset_eqb_perm.
   - destruct (rev (s_labels (sgetn (nn n) sn))) as [|lb r]; [destruct l; [reflexivity|discriminate]|].
